@@ -808,6 +808,43 @@ def multiconv(ctx, cid, P, dim, seq, sc):
             _conv(ctx, cid, 'Twist2.exp', P, lambda: tw.exp(), Ms, sc, 'Twist2[N].exp()', get=A)
 
 
+def midrange(ctx):
+    """regions between the landmark letters: (a) the documented minimal 3-vector form and back (UnitQuaternion.vec3 -> UnitQuaternion.Vec3) for angles
+    0.05 .. 2 rad; (b) composition of two small non-commuting motions (norms 1.5e-3 .. 3e-2) as twists against the same composition as poses"""
+    S = sm()
+    axes = [alph.unit((1, 2, 3)), alph.unit((0.1, 1, 0.3)), np.array([0.0, 0.0, 1.0])]
+    for th, (ai, ax) in itertools.product((0.05, 0.15, 0.21, 0.25, 0.3, 0.39, 0.45, 1.0, 2.0, -0.3, -1.2), enumerate(axes)):
+        cid = 'C04/midrange/vec3/theta=%g/axis=%d' % (th, ai)
+        if not ctx.want(cid):
+            continue
+        ctx.case(cid, key=cid)
+        P = dict(step='vec3', theta=th)
+        R = ref.mp_rot(ax, th)
+        q = S.UnitQuaternion(ref.r2q_ref(R))
+        q2 = safe(ctx, cid, 'UnitQuaternion.Vec3', P, lambda: S.UnitQuaternion.Vec3(q.vec3))
+        if q2 is not None:
+            cmp(ctx, cid, 'UnitQuaternion.Vec3', P, ref.q2r(np.asarray(q2.vec, dtype=float)), R, 1, 'UnitQuaternion.Vec3(q.vec3) (reference q2r)')
+            e = safe(ctx, cid, 'UnitQuaternion.eq', P, lambda: q == q2)
+            if e is not None and not (isinstance(e, (bool, np.bool_)) and bool(e)):
+                ctx.fail(cid, 'UnitQuaternion.Vec3', 'mismatch', P, 'q == Vec3(q.vec3) gives %r' % (e,))
+    gx, gy = np.array([1.0, -2.0, 0.5, 0.3, 0.2, -0.7]), np.array([-0.5, 1.0, 2.0, -0.4, 0.6, 0.1])
+    for mx, my in itertools.product((1.5e-3, 3e-3, 8e-3, 3e-2), repeat=2):
+        cid = 'C04/midrange/smalltwists/%g/%g' % (mx, my)
+        if not ctx.want(cid):
+            continue
+        ctx.case(cid, key=cid)
+        P = dict(step='small-twists', mx=mx, my=my)
+        sx, sy = gx / np.linalg.norm(gx) * mx, gy / np.linalg.norm(gy) * my
+        Mx, My = ref.mp_exp_se3(sx), ref.mp_exp_se3(sy)
+        W = safe(ctx, cid, 'Twist3.mul', P, lambda: (S.Twist3(S.SE3(Mx.copy())) * S.Twist3(S.SE3(My.copy()))).SE3())
+        if W is not None:
+            cmp(ctx, cid, 'Twist3.mul', P, W.A, Mx @ My, 1, 'Twist3(X) * Twist3(Y) -> SE3 against X Y')
+        X50 = S.Twist3(sx.copy())
+        ok50 = safe(ctx, cid, 'Twist3.mul', P, lambda: [X50 * S.Twist3(sy.copy()) for _ in range(1)][0].SE3())
+        if ok50 is not None:
+            cmp(ctx, cid, 'Twist3.mul', P, ok50.A, Mx @ My, 1, 'Twist3(sx) * Twist3(sy) -> SE3 against exp(sx) exp(sy)')
+
+
 def shards(tier, seed):
     out = []
     K3, K2 = (3, 2) if tier == 'quick' else (12, 6)
@@ -815,7 +852,7 @@ def shards(tier, seed):
     out += [('bfs', 2, k, K2) for k in range(K2)]
     n = 8 if tier == 'quick' else 32
     out += [('shared', k, n) for k in range(n)]
-    out += [('prod', 3), ('prod', 2)]
+    out += [('prod', 3), ('prod', 2), ('midrange',)]
     return out
 
 
@@ -824,5 +861,7 @@ def run_shard(ctx, shard):
         bfs(ctx, shard[1], shard[2], shard[3])
     elif shard[0] == 'prod':
         seqprod(ctx, shard[1])
+    elif shard[0] == 'midrange':
+        midrange(ctx)
     else:
         shared(ctx, shard[1], shard[2])
